@@ -65,11 +65,27 @@ def main():
     args = ap.parse_args()
     items = []
     ALL = ['C04', 'C05', 'C06', 'C07', 'C15', 'C16', 'C19']
+    expect_green = set()
+    no_expectation = set()
     if args.all:
-        idx = os.path.join(VERIF, 'mutants', 'INDEX.json')
-        if os.path.exists(idx):
-            for e in json.load(open(idx)):
-                items.append((os.path.join(VERIF, 'mutants', e['patch']), e['props']))
+        # file name convention: cNN-*.patch must be caught by CNN; revert-Dk.patch by the property of defect Dk;
+        # equiv-cNN-*.patch must NOT be caught (behaviour-preserving / unobservable); undecided-cNN-* : either
+        REV = {'D1': 'C07', 'D2': 'C05', 'D3': 'C05', 'D4': 'C05', 'D5': 'C06', 'D6': 'C15'}
+        md = os.path.join(VERIF, 'mutants')
+        for n in sorted(os.listdir(md)):
+            if not n.endswith('.patch'):
+                continue
+            p = os.path.join(md, n)
+            if n.startswith('revert-'):
+                items.append((p, [REV[n[7:9]]]))
+            elif n.startswith('equiv-'):
+                items.append((p, [n[6:9].upper()]))
+                expect_green.add(p)
+            elif n.startswith('undecided-'):
+                items.append((p, [n[10:13].upper()]))
+                no_expectation.add(p)
+            else:
+                items.append((p, [n[:3].upper()]))
         sd = os.path.join(VERIF, 'seeded')
         if os.path.isdir(sd):
             for n in sorted(os.listdir(sd)):
@@ -91,11 +107,15 @@ def main():
         caught = [p for p, c in r.get('checks', {}).items() if c['exit'] == 1]
         broken = [p for p, c in r.get('checks', {}).items() if c['exit'] not in (0, 1)]
         status = 'CAUGHT' if caught else 'MISSED'
-        if 'error' in r:
+        if 'error' in r or broken:
             status = 'ERROR'
-        if status != 'CAUGHT':
+        if patch in expect_green:
+            status = {'CAUGHT': 'FALSE-ALARM', 'MISSED': 'GREEN-OK'}.get(status, status)
+        elif patch in no_expectation:
+            status = status.lower()
+        if status in ('MISSED', 'ERROR', 'FALSE-ALARM'):
             bad += 1
-        print('%-7s %s caught_by=%s harness_error=%s %s' % (status, os.path.relpath(patch, VERIF), caught, broken,
+        print('%-11s %s caught_by=%s harness_error=%s %s' % (status, os.path.relpath(patch, VERIF), caught, broken,
                                                           ('tests_pass=%s' % r.get('baseline_tests_pass')) if args.tests else ''))
         for p, c in r.get('checks', {}).items():
             if c['classes']:
